@@ -16,7 +16,7 @@ STRENGTHENED = {
 for d in sorted(glob.glob('/verif/seeded/C*_*')):
     name = os.path.basename(d)
     pid, n = name.split('_')
-    rnd = 1 if int(n) <= 2 else (2 if int(n) <= 4 else 3)
+    rnd = 1 if int(n) <= 2 else (2 if int(n) <= 4 else (3 if int(n) <= 7 else 4))
     meta = {}
     if os.path.exists(d + '/agent_meta.json'):
         meta = json.load(open(d + '/agent_meta.json'))
